@@ -3,7 +3,7 @@ from . import common as C
 
 LEAN_MODULE = "Urandom.Props.C18"
 DISAGREEMENT_IS_FAILING_INPUT = False
-RULE = ("requests: Read over an adversarial scripted reader (1-byte reads, random chunk sizes, Interrupted before any chunk, an I/O error or end of data at every offset) under "
+RULE = ("requests: Read over an adversarial scripted reader (1-byte reads, random chunk sizes, Interrupted before any chunk, an I/O error of every kind - Other, WouldBlock, TimedOut, UnexpectedEof, BrokenPipe, InvalidData, OutOfMemory, Unsupported - or end of data at every offset) under "
         "random interleavings of next_u32 / next_u64 / fill_bytes(len) / jump with panics caught per operation; Mock over word lists incl. exhaustion and jump. "
         "Every output (value, bytes, panic) compared with the model; oracle: successful outputs are exactly the next bytes of the data in order, little-endian. "
         "non-trivial = at least one op; distinct = distinct request line")
@@ -27,7 +27,7 @@ def script(r, n):
         elif k < 9:
             out.append("i")
         else:
-            out.append("e")
+            out.append(r.choice(["e", "e", "e:wouldblock", "e:timedout", "e:eof", "e:brokenpipe", "e:invaliddata", "e:oom", "e:unsupported"]))
     return out
 
 
@@ -38,7 +38,7 @@ def generate(r, tier, build):
         data = r.bits(8 * r.below(80)).to_bytes(80, "little")[: r.below(80)]
         sc = script(r, r.below(30)) if r.chance(4, 5) else []
         if r.chance(1, 2):
-            sc = [x for x in sc if x != "e"]
+            sc = [x for x in sc if not x.startswith("e")]
         reqs.append("read data=%s script=%s ops=%s" % (data.hex(), ",".join(sc), ",".join(ops(r, r.range(1, 12)))))
     for _ in range(800 * k):
         words = [r.edge64() for _ in range(r.below(12))]
@@ -55,7 +55,23 @@ def classify(req, model):
     return req.split()[0]
 
 
+def canon(impl):
+    """the harness appends how many I/O errors the scripted reader reported (for the oracle); the model has no such token"""
+    toks = impl.split(" ")
+    return " ".join(t for t in toks if not t.startswith("errs="))
+
+
 def oracle(req, impl, build):
+    errs = [t for t in impl.split() if t.startswith("errs=")]
+    impl = canon(impl)
+    if errs:
+        k = int(errs[0][5:])
+        if impl.split().count("panic") < k:
+            return "the reader reported %d I/O error(s) but only %d operation(s) panicked: a failure of the reader was swallowed" % (k, impl.split().count("panic"))
+    return oracle_bytes(req, impl, build)
+
+
+def oracle_bytes(req, impl, build):
     """successful outputs of `read` must be consecutive, in-order pieces of the data, little-endian, with no gap unless a
     failed (panicking) call in between consumed bytes; `mock` words in order"""
     d = dict(t.split("=", 1) for t in req.split()[1:])
